@@ -14,6 +14,8 @@ def scenario(rng, i):
     else:
         tree = gen.gen_tree(rng, max_entries=6, max_depth=2, simple=True, ds_store=False)
         tree.setdefault("a.txt", {"f": gen.gen_content(rng)})
+    if not gen.all_files(tree):
+        tree["f0.bin"] = {"f": gen.gen_content(rng)}
     files = gen.all_files(tree)
     target = rng.choice(files)
     original = gen._node(tree, target)["f"]
